@@ -235,6 +235,8 @@ impl Write for SimWrite {
         if let Fault::ZeroAt { k } = s.plan.fault {
             if k == widx {
                 s.counters.zero += 1;
+                let call = s.counters.calls - 1;
+                s.counters.first_fail_call.get_or_insert(call);
                 return Ok(0);
             }
         }
